@@ -205,11 +205,16 @@ func (o *Oracle) signChain(el *etree.Element, kp *fx.KeyPair, method string, cer
 // Encrypt wraps a (signed or unsigned) assertion element into saml:EncryptedAssertion for the SP certificate using the
 // reference encrypter.
 func (o *Oracle) Encrypt(assertionEl *etree.Element, spCert *fx.KeyPair, blockAlg, transport, digest string) (*etree.Element, error) {
+	return o.EncryptOverlong(assertionEl, spCert, blockAlg, transport, digest, 0)
+}
+
+// EncryptOverlong is Encrypt with extraBlocks whole blocks of surplus CBC padding (a malformed cipher value for > 0).
+func (o *Oracle) EncryptOverlong(assertionEl *etree.Element, spCert *fx.KeyPair, blockAlg, transport, digest string, extraBlocks int) (*etree.Element, error) {
 	if blockAlg == "" {
 		blockAlg, transport, digest = refenc.AES128CBC, refenc.OAEPMGF1P, refenc.DigestSHA1
 	}
 	pt := Bytes(assertionEl)
-	ed, _, err := refenc.Encrypt(blockAlg, transport, digest, spCert.Cert, nil, pt, o.Rng, true)
+	ed, _, err := refenc.EncryptOverlong(blockAlg, transport, digest, spCert.Cert, nil, pt, o.Rng, true, extraBlocks)
 	if err != nil {
 		return nil, err
 	}
